@@ -14,9 +14,11 @@ import (
 )
 
 // An entry is one production decode path fed with raw bytes. run returns how far the input got:
-//   0 rejected by the first layer (wire-format unmarshal)
-//   1 passed the first layer, rejected by the type's decoder
-//   2 decoded; the accessors production calls next were applied too
+//
+//	0 rejected by the first layer (wire-format unmarshal)
+//	1 passed the first layer, rejected by the type's decoder
+//	2 decoded; the accessors production calls next were applied too
+//
 // It panics when the code under test panics (the probe recovers).
 type entry struct {
 	name string
@@ -146,7 +148,7 @@ func pokeWo(wo *types.WorkObject, view types.WorkObjectView) {
 	// root cause, reported under one fingerprint.
 	hdrGroup := ""
 	if wo.Body() != nil && (wo.Body().Header() == nil || hollowHeader(wo.Body().Header())) {
-		hdrGroup = "types.WorkObjectBody.ProtoDecode/body-header-absent"
+		hdrGroup = bodyHeaderAbsent
 		if stepGroup != "" {
 			hdrGroup = stepGroup
 		}
